@@ -164,6 +164,11 @@ func (rb *ResponseBuffer) WriteHeader(status int) {
 	if rb.wroteHeader {
 		return
 	}
+	if status >= 100 && status < 200 && status != http.StatusSwitchingProtocols {
+		// informational header; the response's own header is still to come
+		rb.ResponseWriterWrapper.WriteHeader(status)
+		return
+	}
 	rb.wroteHeader = true
 
 	rb.status = status
